@@ -2,7 +2,7 @@
    requested range.  Only statements, each closed by `exact <lemma>`, Print Assumptions beneath. *)
 From Coq Require Import NArith ZArith List Bool Lia.
 From Common Require Import Outcome.
-From C31 Require Import Gen Model ModelSpec ProofsPlan ProofsStore ProofsServe ProofsQuiet.
+From C31 Require Import Gen Model ModelSpec ProofsPlan ProofsStore ProofsServe ProofsQuiet ProofsMeaning.
 Import ListNotations.
 Local Open Scope N_scope.
 
@@ -56,6 +56,23 @@ Theorem C31_serve_by_number_answers : forall s req n seen bb,
   exists resp, serve s req seen = Ok resp /\ serve_spec_b s req resp = true.
 Proof. exact serve_by_number_answers. Qed.
 Print Assumptions C31_serve_by_number_answers.
+
+(* What serve_spec_b says, as propositions about the store: the response is no longer than the
+   requested and the protocol maximum; every block of it is stored; read in ascending order, each
+   block is the parent of the next and one lower (gap-free, hash-linked); every block carries
+   exactly the requested fields the store has; a request by hash is answered from that hash. *)
+Theorem C31_serve_spec_meaning : forall s req resp, serve_spec_b s req resp = true ->
+  let hs := map d_hash resp in
+  let asc := if r_dir req =? dir_asc then hs else rev hs in
+     N.of_nat (length resp) <= resp_max req
+  /\ N.of_nat (length resp) <= max_resp
+  /\ (forall x, In x hs -> exists b, find_blk s x = Some b)
+  /\ (forall i x y, nth_error asc i = Some x -> nth_error asc (S i) = Some y -> parent_child s x y)
+  /\ (forall d, In d resp ->
+        d_fields d = N.land (N.land (r_fields req) all_fields) (avail_of s (d_hash d)))
+  /\ (forall h x, r_from req = FromHash h -> hd_error hs = Some x -> x = h).
+Proof. exact serve_spec_meaning. Qed.
+Print Assumptions C31_serve_spec_meaning.
 
 (* CreateBlockResponse never panics: on every well-formed store every request (any start, any
    direction byte, any max including 0 and values above 128, any field byte, any repeat count) is
